@@ -6,7 +6,7 @@ from __future__ import annotations
 import inspect, time
 import torch
 from ..common import Rng, Report, budget, call_real, flat_out, dec_out, enc_args, run_driver, outcomes_agree
-from ..registry import SPECS, Spec, fresh_cfg, public_cfg, cat_batches, new_metric, finding_class, fine_variant, f64_variant
+from ..registry import SPECS, Spec, fresh_cfg, public_cfg, cat_batches, new_metric, finding_class, fine_variant, f64_variant, bool_label_variant
 from ..engine import observe, same_obs, obs_json, fed, gen_stream
 import torcheval.metrics as M
 
@@ -74,12 +74,21 @@ def sweep(rep: Report, rng: Rng, reps: int, deadline: float):
                 # storage-dtype variants of the same stream (class and functional see the same tensors): float64 data split below
                 # float32 resolution / off the float32 grid — a class that caches or accumulates in another precision than its
                 # functional twin shows as a changed tie structure or value
-                mode = rng.choice(["f32", "f32", "f32", "f64-fine", "f64-off-grid"])
+                mode = rng.choice(["f32", "f32", "f32", "f64-fine", "f64-off-grid", "bool-labels"])
                 rep.count(f"dtype-mode:{mode}")
                 if mode == "f64-fine":
                     bs = [fine_variant(b, salt=k + 1) for k, b in enumerate(bs)]
                 elif mode == "f64-off-grid":
                     bs = [f64_variant(b, salt=k + 1) for k, b in enumerate(bs)]
+                elif mode == "bool-labels":
+                    vb = [bool_label_variant(b) for b in bs]
+                    if all(v is not None for v in vb):
+                        try:
+                            fed(spec, cfg, vb)           # a class that rejects bool labels (index kernels) is out of this variant
+                            bs = vb
+                            rep.count("bool-labels:applied")
+                        except Exception:  # noqa: BLE001
+                            rep.count("bool-labels:rejected-by-the-class")
                 if cat_batches(spec, bs) is None or (spec.kind == "retrieval" and cfg.get("num_queries", 1) != 1):
                     continue
                 rep.count(f"class:{spec.name}")
